@@ -34,6 +34,9 @@ PROVED here (all inputs, no bounds; axioms ⊆ {propext, Classical.choice, Quot.
   and then `occur_check` never returns — the real type checker overflows its stack in `occur_check` on `fn f(x){ x(x) }`);
   `C04_tuple_projection_partial` / `_counterexample` (`t.2` on a pair reaches `vec[2]`: the range check is off by one);
   `C04_stage_counter_partial` / `_counterexample` (255 nested quotes overflow the `u8` stage counter).
+  The occurs-check model is tied to `typing/unification.rs` by correspondence: `drv_c04 occurs 2` renders every type `t` of
+  depth ≤ 2 over `?0`, `?1` as a program that makes the real checker unify `?0` with `t`; the model (with the quirk) predicts
+  `Circular …` diagnostic vs binding, the harness observes it (and that every cyclic binding let through ends in a stack overflow).
 
 NOT proved (decided by the correspondence run of `tools/props/c04.py`): that the Rust grammar functions terminate as a whole
 (mutual recursion between the grammar functions is not modelled; each loop is proved to terminate GIVEN that the calls in its
